@@ -68,6 +68,14 @@ type (
 		Impl  string            `json:"impl"`
 		Naive string            `json:"naive"`
 		Progs map[string]string `json:"progs"`
+		Subs  []verifC04Sub     `json:"subs"`
+	}
+	// a substituted expression the naive evaluation compiled: element (re, vars) with the captured values
+	verifC04Sub struct {
+		Re   string   `json:"re"`
+		Vars string   `json:"vars"`
+		Vals []string `json:"vals"` // hex
+		Expr string   `json:"expr"`
 	}
 	verifC04Converter struct {
 		data map[uint64][]verifC04Chunk
@@ -205,7 +213,7 @@ type verifC04Source struct {
 }
 
 // first match of re in data[dir] from offset off, whole remaining buffer, no shortcuts
-func verifC04Naive(c *verifC04Case, conds []verifC04Cond, st *verifC04Stream) (bool, error) {
+func verifC04Naive(c *verifC04Case, conds []verifC04Cond, st *verifC04Stream, subs *[]verifC04Sub) (bool, error) {
 	sources := [][]verifC04Chunk{}
 	if c.Conv == "" || c.Conv == "none" {
 		sources = append(sources, st.Raw)
@@ -228,10 +236,13 @@ func verifC04Naive(c *verifC04Case, conds []verifC04Cond, st *verifC04Stream) (b
 		}
 		return true, nil
 	}
+	// every condition is evaluated on every source (also after the result is clear) so that the substituted
+	// expressions of all of them are known to the caller
+	result := true
 	for _, cd := range conds {
 		succ := 0
 		for _, src := range sources {
-			ok, err := verifC04NaiveSeq(cd, src)
+			ok, err := verifC04NaiveSeq(cd, src, subs)
 			if err != nil {
 				return false, err
 			}
@@ -240,16 +251,16 @@ func verifC04Naive(c *verifC04Case, conds []verifC04Cond, st *verifC04Stream) (b
 			}
 		}
 		if cd.Inv && succ != len(sources) {
-			return false, nil
+			result = false
 		}
 		if !cd.Inv && succ == 0 {
-			return false, nil
+			result = false
 		}
 	}
-	return true, nil
+	return result, nil
 }
 
-func verifC04NaiveSeq(cd verifC04Cond, chunks []verifC04Chunk) (bool, error) {
+func verifC04NaiveSeq(cd verifC04Cond, chunks []verifC04Chunk, subs *[]verifC04Sub) (bool, error) {
 	data := [2][]byte{}
 	type span struct{ dir, begin, end int }
 	spans := []span{}
@@ -263,13 +274,19 @@ func verifC04NaiveSeq(cd verifC04Cond, chunks []verifC04Chunk) (bool, error) {
 	matched := 0
 	for _, e := range cd.Elems {
 		expr := e.Re
+		vals := make([]string, len(e.Vars))
 		for i := len(e.Vars) - 1; i >= 0; i-- {
 			v := e.Vars[i]
 			val, ok := vars[v.Name]
 			if !ok {
 				return false, fmt.Errorf("variable %q not defined", v.Name)
 			}
+			vals[i] = hex.EncodeToString([]byte(val))
 			expr = expr[:v.Pos] + "(?:" + binaryregexp.QuoteMeta(val) + ")" + expr[v.Pos:]
+		}
+		if len(e.Vars) != 0 && subs != nil {
+			vb, _ := json.Marshal(e.Vars)
+			*subs = append(*subs, verifC04Sub{Re: e.Re, Vars: string(vb), Vals: vals, Expr: expr})
 		}
 		rx, err := binaryregexp.Compile(expr)
 		if err != nil {
@@ -327,10 +344,13 @@ func verifC04Run(c *verifC04Case, dir string) (out verifC04Out) {
 	for _, conj := range c.Or {
 		for _, cd := range conj {
 			for _, e := range cd.Elems {
-				if len(e.Vars) == 0 {
-					if _, ok := out.Progs[e.Re]; !ok {
-						out.Progs[e.Re] = verifC04DumpProg(e.Re)
-					}
+				re := e.Re
+				// the precondition finalize() compiles for an element with variables
+				for i := len(e.Vars) - 1; i >= 0; i-- {
+					re = re[:e.Vars[i].Pos] + "(?:(?s:.*))" + re[e.Vars[i].Pos:]
+				}
+				if _, ok := out.Progs[re]; !ok {
+					out.Progs[re] = verifC04DumpProg(re)
 				}
 			}
 		}
@@ -346,7 +366,7 @@ func verifC04Run(c *verifC04Case, dir string) (out verifC04Out) {
 		for id := range c.Streams {
 			any := false
 			for _, conj := range c.Or {
-				ok, err := verifC04Naive(c, conj, &c.Streams[id])
+				ok, err := verifC04Naive(c, conj, &c.Streams[id], &out.Subs)
 				if err != nil {
 					out.Naive = "ERR " + err.Error()
 					return
@@ -359,6 +379,11 @@ func verifC04Run(c *verifC04Case, dir string) (out verifC04Out) {
 		}
 		out.Naive = "OK " + strings.Join(sel, ",")
 	}()
+	for _, sb := range out.Subs {
+		if _, ok := out.Progs[sb.Expr]; !ok {
+			out.Progs[sb.Expr] = verifC04DumpProg(sb.Expr)
+		}
+	}
 	// implementation
 	func() {
 		defer func() {
